@@ -20,7 +20,7 @@ DELIMS = ['⋮', '│', '┊', '‖', '|', ':']
 
 
 def plan(ctx):
-    n = ctx.n(2500, 60000)
+    n = ctx.n(7000, 120000)
     return [('case', engine.stable_hash((ctx.seed, 'c05', i))) for i in range(n)]
 
 
